@@ -1265,6 +1265,64 @@ pub fn fmt_op<C: Fc>(op: &p3_circuit::Op<C::EF>) -> String {
     }
 }
 
+/// Known-finding class "coeff-slot-second-creator" (C09/C10, decompose linkage on): a
+/// `recompose/coeff` row sends each of its hint-derived coefficient slots with creator
+/// multiplicity.  That is only right when the row is the slot's single creator and the slot's
+/// first appearance: the preprocessing does not notice a coefficient slot that (a) occurs twice
+/// among the coefficient inputs of such rows (two coefficients tied by `connect`), (b) is also
+/// the output of an ALU / Const / Public / table-backed non-primitive row, or (c) is used by an
+/// op that precedes the row in the op list (that op then took the creator role of a fresh hint
+/// output).  Returns `false` for circuits of that shape.
+pub fn coeff_slots_ok<F: p3_field::Field>(circuit: &p3_circuit::Circuit<F>) -> bool {
+    use p3_circuit::Op;
+    let mut seen_use: std::collections::HashSet<u32> = std::collections::HashSet::new();
+    let mut produced: std::collections::HashSet<u32> = std::collections::HashSet::new();
+    let mut coeffs: std::collections::HashSet<u32> = std::collections::HashSet::new();
+    let mut later_check: Vec<u32> = vec![];
+    for op in &circuit.ops {
+        match op {
+            Op::Const { out, .. } | Op::Public { out, .. } => {
+                produced.insert(out.0);
+            }
+            Op::Alu { a, b, c, out, .. } => {
+                for w in [Some(*a), Some(*b), *c].into_iter().flatten() {
+                    seen_use.insert(w.0);
+                }
+                produced.insert(out.0);
+                seen_use.insert(out.0);
+            }
+            Op::Hint { inputs, .. } => {
+                for w in inputs {
+                    seen_use.insert(w.0);
+                }
+            }
+            Op::NonPrimitiveOpWithExecutor { executor, inputs, outputs, .. } => {
+                let created = executor.created_input_witnesses(inputs);
+                for w in &created {
+                    // (a) twice among coefficient inputs, (c) used before this row
+                    if !coeffs.insert(w.0) || seen_use.contains(&w.0) {
+                        return false;
+                    }
+                    later_check.push(w.0);
+                }
+                for w in inputs.iter().flatten() {
+                    seen_use.insert(w.0);
+                }
+                for w in outputs.iter().flatten() {
+                    // the row's own output equal to one of its coefficients
+                    if created.iter().any(|c| c.0 == w.0) {
+                        return false;
+                    }
+                    produced.insert(w.0);
+                    seen_use.insert(w.0);
+                }
+            }
+        }
+    }
+    // (b) another producer anywhere in the op list
+    later_check.iter().all(|w| !produced.contains(w))
+}
+
 /// Does every `HornerAcc` op of the compiled circuit follow the positional contract of the
 /// ALU table?  The table takes the accumulator of a Horner row from the previous ALU row:
 /// a maximal run of consecutive `HornerAcc` ops is one chain that starts from 0, and the
